@@ -140,32 +140,41 @@ OffsetOf(v) == IF v[1] # 0 \/ v[2] # 0 \/ v[3] >= 32768 THEN Big ELSE v[4] + v[3
 
 ----------------------------------------------------------------------------
 (* chunked integer stream: chunk count, end offsets, data *)
-IntStream(F, a) ==
-  LET nc == Uvarint(F, a)
-      RECURSIVE Offs(_, _, _)
-      Offs(k, p, acc) == IF k = Cap(F, nc.v) THEN [offs |-> acc, data |-> p]
-                         ELSE LET u == Uvarint(F, p) IN Offs(k + 1, p + u.n, Append(acc, u.v))
-  IN  Offs(0, a + nc.n, <<>>)
-
 \* chunk numbers from 0; a chunk the stream does not have starts beyond everything (reads as zeros)
 ChunkStart(st, c) == IF c < 0 \/ c > Len(st.offs) THEN 8388607 ELSE st.data + (IF c = 0 THEN 0 ELSE st.offs[c])
 
 \* k uvarints starting at p: [vals, p]
-ReadN(F, p, k0) ==
-  LET k == IF k0 < 0 \/ k0 > Len(F) THEN 0 ELSE k0       \* a count no file of this length can hold
+ReadNB(F, p, k0, maxk) ==
+  \* a count no file of this length can hold - or beyond anything the harness writes (16384 > 2 x 1024 entries of a
+  \* doc-value chunk header, > the chunk count of any generated segment) - is read as 0; it keeps a wrong file from
+  \* costing TLC a quadratic number of sequence copies
+  LET k == IF k0 < 0 \/ k0 > Len(F) \/ k0 > maxk THEN 0 ELSE k0
       one(st, i) == LET u == Uvarint(F, st.p) IN [vals |-> Append(st.vals, u.v), p |-> st.p + u.n]
   IN  FoldRange(one, 0, k, [vals |-> <<>>, p |-> p])
 
+ReadN(F, p, k0) == ReadNB(F, p, k0, 16384)
+
+\* chunked integer stream: chunk count, end offsets, data (an impossible chunk count reads as no chunks)
+IntStream(F, a) ==
+  LET nc == Uvarint(F, a)
+      r  == ReadN(F, a + nc.n, nc.v)
+  IN  [offs |-> r.vals, data |-> r.p]
+
 \* locations of one hit: a byte count, then per location field, pos, start, end, #array positions, positions
-ReadLocs(F, p, names) ==
+ReadLocs(F, p, names, fr) ==
   LET sz == Uvarint(F, p)
-      stop == IF sz.v < 0 \/ p + sz.n + sz.v > Len(F) THEN Len(F) ELSE p + sz.n + sz.v
-      RECURSIVE R(_, _)
-      R(q, acc) == IF q >= stop THEN acc
-                   ELSE LET h == ReadN(F, q, 5)
-                            ap == ReadN(F, h.p, h.vals[5])
-                        IN  R(ap.p, Append(acc, [f |-> NameAt(names, h.vals[1]), p |-> h.vals[2], s |-> h.vals[3], e |-> h.vals[4], ap |-> ap.vals]))
-  IN  [locs |-> R(p + sz.n, <<>>), p |-> stop]
+      \* a byte count that runs past the end of the file frames nothing (the hit then shows no locations)
+      stop == IF sz.v < 0 \/ p + sz.n + sz.v > Len(F) THEN p + sz.n ELSE p + sz.n + sz.v
+      \* a hit has at most as many locations as occurrences (the writers' callers never give more, nor does the
+      \* harness); an impossible frequency frames nothing.  The bound keeps a wrong file from being parsed as tens of
+      \* thousands of "locations"
+      maxLocs == IF fr < 0 \/ fr > 4096 THEN 0 ELSE fr
+      RECURSIVE R(_, _, _)
+      R(q, acc, n) == IF q >= stop \/ n = maxLocs THEN acc
+                      ELSE LET h == ReadN(F, q, 5)
+                               ap == ReadNB(F, h.p, h.vals[5], 64)       \* (array positions: a handful)
+                           IN  R(ap.p, Append(acc, [f |-> NameAt(names, h.vals[1]), p |-> h.vals[2], s |-> h.vals[3], e |-> h.vals[4], ap |-> ap.vals]), n + 1)
+  IN  [locs |-> R(p + sz.n, <<>>, 0), p |-> stop]
 
 \* the hits of a general postings record at offset a
 Postings(F, path, a, ft, names) ==
@@ -185,7 +194,7 @@ Postings(F, path, a, ft, names) ==
             fr == fh.v \div 2
             hasLocs == fh.v % 2 = 1
             nm == IF fr > 0 THEN Uvarint(F, tp1 + fh.n) ELSE [v |-> 0, n |-> 0]
-            ls == IF hasLocs THEN ReadLocs(F, lp1, names) ELSE [locs |-> <<>>, p |-> lp1]
+            ls == IF hasLocs THEN ReadLocs(F, lp1, names, fr) ELSE [locs |-> <<>>, p |-> lp1]
         IN  [chunk |-> c, tp |-> tp1 + fh.n + nm.n, lp |-> ls.p,
              acc |-> Append(st.acc, [d |-> d, fr |-> fr, nm |-> nm.v, locs |-> ls.locs])]
   IN  FoldRange(hit, 1, Len(docs) + 1, [chunk |-> -1, tp |-> 0, lp |-> 0, acc |-> <<>>]).acc
@@ -218,7 +227,7 @@ StoredRecord(F, path, a, names) ==
       RECURSIVE R(_, _)
       R(q, acc) == IF q >= mp + mds.v \/ q >= Len(F) THEN acc
                    ELSE LET h == ReadN(F, q, 5)
-                            ap == ReadN(F, h.p, h.vals[5])
+                            ap == ReadNB(F, h.p, h.vals[5], 64)       \* (array positions: a handful)
                         IN  R(ap.p, Append(acc, [f |-> NameAt(names, h.vals[1]), ty |-> h.vals[2],
                                                  v |-> SafeSub(raw, h.vals[3] + 1, h.vals[3] + h.vals[4]), ap |-> ap.vals]))
   IN  << [f |-> IDName, ty |-> 116, v |-> idv, ap |-> <<>>] >> \o R(mp + idl.n, <<>>)
